@@ -16,8 +16,16 @@ Arguments N.add : simpl never.
 
 Definition vexp_of (h : addr -> option varval) (a : addr) : bool :=
   match h a with Some vv => vv_export vv | None => false end.
-Definition fexp_of (h : addr -> option funinfo) (a : addr) : bool :=
-  match h a with Some fi => fi_export fi | None => false end.
+Definition fexp_of (h : addr -> option sfuninfo) (a : addr) : bool :=
+  match h a with Some fi => sf_export fi | None => false end.
+(* a FuncInfo of M and a function cell of S: same home package and export flag (the value is related
+   through the Lambda heap, for live cells only: see f_live) *)
+Definition frel (o1 : option funinfo) (o2 : option sfuninfo) : Prop :=
+  match o1, o2 with
+  | Some fi, Some sf => fi_pkg fi = sf_pkg sf /\ fi_export fi = sf_export sf
+  | None, None => True
+  | _, _ => False
+  end.
 Definition junk : varval := {| vv_pkg := None; vv_val := None; vv_export := true |}.
 
 Lemma opt_addr_eqb_eq a b : opt_addr_eqb a b = true <-> a = b.
@@ -64,19 +72,26 @@ Section Refine.
            exists vv, sh a = Some vv /\ vv_val vv <> None /\ vv_pkg vv = Some p;
     v_junk : forall p n a, mem n VN = false -> own p n = Some a -> sh a = Some junk;
     v_vis : vis (fun n => mem n VN) own (vexp_of sh) us }.
-  Record RFp (T : tbl) (mh : addr -> option funinfo) (mn : addr)
-             (own : tbl) (sh : addr -> option funinfo) (sn : addr) (us : pkgid -> list pkgid) : Prop := {
-    f_heap : forall a, mh a = sh a;
+  Record RFp (T : tbl) (mh : addr -> option funinfo) (lh : addr -> option Z) (pl : tbl) (mn ln : addr)
+             (own : tbl) (sh : addr -> option sfuninfo) (sn : addr) (us : pkgid -> list pkgid) : Prop := {
+    f_heap : forall a, frel (mh a) (sh a);
     f_next : mn = sn;
     f_tab : forall p n, T p n = res own (fexp_of sh) us p n;
     f_own : forall p n a, own p n = Some a ->
-            a < sn /\ mem n FN = true /\ exists fi, sh a = Some fi /\ fi_pkg fi = p;
+            a < sn /\ mem n FN = true /\ exists fi, sh a = Some fi /\ sf_pkg fi = p;
     f_inj : inj own;
-    f_vis : vis (fun _ => true) own (fexp_of sh) us }.
+    f_vis : vis (fun _ => true) own (fexp_of sh) us;
+    (* the FuncInfo of a live (own) cell refers to a Lambda holding the value S has, and that Lambda is
+       registered in Package.lambdas at most under the cell's own (home, name): a later defun elsewhere
+       cannot patch it *)
+    f_live : forall p n a, own p n = Some a ->
+             exists fi sf, mh a = Some fi /\ sh a = Some sf /\ lh (fi_lam fi) = Some (sf_val sf) /\ fi_lam fi < ln /\
+                           (forall p' n', pl p' n' = Some (fi_lam fi) -> p' = p /\ n' = n);
+    f_plam : forall p n x, pl p n = Some x -> x < ln }.
   Definition RV (m : state) (s : sstate) : Prop :=
     RVp (vars m) (vheap m) (vnext m) (own_v s) (s_vheap s) (s_vnext s) (s_uses s).
   Definition RF (m : state) (s : sstate) : Prop :=
-    RFp (funcs m) (fheap m) (fnext m) (own_f s) (s_fheap s) (s_fnext s) (s_uses s).
+    RFp (funcs m) (fheap m) (lheap m) (plam m) (fnext m) (lnext m) (own_f s) (s_fheap s) (s_fnext s) (s_uses s).
   Definition Inv (m : state) (s : sstate) : Prop := Cinv m s /\ RV m s /\ RF m s.
 
   Lemma res_all_none (own : tbl) exp us p n : (forall q, own q n = None) -> res own exp us p n = None.
@@ -105,17 +120,26 @@ Section Refine.
     Proof. intros p Hp. destruct (c_wf _ _ HC _ _ Hp) as [_ H]. congruence. Qed.
     Lemma vexp_eq a : vexp_of (vheap m) a = vexp_of (s_vheap s) a.
     Proof. unfold vexp_of. rewrite (v_heap _ _ _ _ _ _ _ HV). reflexivity. Qed.
-    Lemma fexp_eq a : fexp_of (fheap m) a = fexp_of (s_fheap s) a.
-    Proof. unfold fexp_of. rewrite (f_heap _ _ _ _ _ _ _ HF). reflexivity. Qed.
+    Lemma fheap_of_s a sf : s_fheap s a = Some sf ->
+      exists fi, fheap m a = Some fi /\ fi_pkg fi = sf_pkg sf /\ fi_export fi = sf_export sf.
+    Proof.
+      intros H. pose proof (f_heap _ _ _ _ _ _ _ _ _ _ HF a) as Hr. unfold frel in Hr. rewrite H in Hr.
+      destruct (fheap m a) as [fi|]; [|contradiction]. exists fi. tauto.
+    Qed.
+    Lemma fexp_eq a : fi_exported m a = fexp_of (s_fheap s) a.
+    Proof.
+      unfold fi_exported, fexp_of. pose proof (f_heap _ _ _ _ _ _ _ _ _ _ HF a) as Hr. unfold frel in Hr.
+      destruct (fheap m a), (s_fheap s a); try contradiction; tauto.
+    Qed.
     Lemma ownf_vn p n : mem n VN = true -> own_f s p n = None.
     Proof.
       intros H. destruct (own_f s p n) as [a|] eqn:E; [|reflexivity].
-      destruct (f_own _ _ _ _ _ _ _ HF _ _ _ E) as (_ & H2 & _). rewrite (disj _ H) in H2. discriminate.
+      destruct (f_own _ _ _ _ _ _ _ _ _ _ HF _ _ _ E) as (_ & H2 & _). rewrite (disj _ H) in H2. discriminate.
     Qed.
     Lemma resf_vn p n : mem n VN = true -> resolve_f s p n = None.
     Proof. intros H. apply res_all_none. intros q. apply ownf_vn, H. Qed.
     Lemma funcs_vn p n : mem n VN = true -> funcs m p n = None.
-    Proof. intros H. rewrite (f_tab _ _ _ _ _ _ _ HF). apply resf_vn, H. Qed.
+    Proof. intros H. rewrite (f_tab _ _ _ _ _ _ _ _ _ _ HF). apply resf_vn, H. Qed.
     Lemma resv_nonm p n : mem n NMl = false -> resolve_v s p n = None.
     Proof.
       intros H. apply res_all_none. intros q. destruct (own_v s q n) as [a|] eqn:E; [|reflexivity].
@@ -124,7 +148,7 @@ Section Refine.
     Lemma resf_nonm p n : mem n NMl = false -> resolve_f s p n = None.
     Proof.
       intros H. apply res_all_none. intros q. destruct (own_f s q n) as [a|] eqn:E; [|reflexivity].
-      destruct (f_own _ _ _ _ _ _ _ HF _ _ _ E) as (_ & H2 & _). rewrite (nm_fn _ H2) in H. discriminate.
+      destruct (f_own _ _ _ _ _ _ _ _ _ _ HF _ _ _ E) as (_ & H2 & _). rewrite (nm_fn _ H2) in H. discriminate.
     Qed.
     Lemma in_s_users u p : In p (s_uses s u) -> In u (s_users P s p).
     Proof.
@@ -224,12 +248,12 @@ Section Refine.
         destruct (G n (nm_vn _ Hn)) as [Gv _]. apply eff_some in Hf. destruct Hf as [Hf1 Hf2].
         rewrite Hf1 in Gv. unfold s_vexp in Gv. unfold vexp_of in Hf2. rewrite Hf2 in Gv. cbn in Gv.
         apply opt_addr_eqb_eq in Gv. exact Gv.
-    - pose proof HF as [h1 h2 h3 h4 h5 h6]. constructor; cbn; auto.
+    - pose proof HF as [h1 h2 h3 h4 h5 h6 h7 h8]. constructor; cbn; auto.
       + intros p' n. destruct (N.eqb_spec p' p) as [->|Hp].
         * rewrite (res_use_self _ _ _ _ p q Hu0).
           destruct (mem n NMl) eqn:Hn.
           -- apply use_entry; auto.
-             ++ intros a. unfold fi_exported, fexp_of. rewrite h1. reflexivity.
+             ++ intros a. apply (fexp_eq m s HF).
              ++ exact (proj2 (G n Hn)).
           -- pose proof (resf_nonm m s HF) as Hx.
              rewrite (h3 q n), (h3 p n). change (res (own_f s) (fexp_of (s_fheap s)) (s_uses s)) with (resolve_f s). rewrite !(Hx _ _ Hn).
@@ -356,10 +380,10 @@ Section Refine.
     - intros p n a. rewrite <- H. apply h8.
     - eapply vis_ext_own; eassumption.
   Qed.
-  Lemma RFp_own_ext T mh mn own own' sh sn us :
-    (forall p n, own p n = own' p n) -> RFp T mh mn own sh sn us -> RFp T mh mn own' sh sn us.
+  Lemma RFp_own_ext T mh lh pl mn ln own own' sh sn us :
+    (forall p n, own p n = own' p n) -> RFp T mh lh pl mn ln own sh sn us -> RFp T mh lh pl mn ln own' sh sn us.
   Proof.
-    intros H [h1 h2 h3 h4 h5 h6]. constructor; auto.
+    intros H [h1 h2 h3 h4 h5 h6 h7 h8]. constructor; auto; [| | | |intros p n a; rewrite <- H; apply h7].
     - intros p n. rewrite <- (res_ext_own own own' _ _ _ _ H). auto.
     - intros p n a. rewrite <- H. apply h4.
     - eapply inj_ext_own; eassumption.
@@ -390,55 +414,96 @@ Section Refine.
     Inv m s -> sorted_op VN FN (ODefun n v) = true -> guard_step P NMl s (ODefun n v) = true ->
     Inv (step m (ODefun n v)) (sstep s (ODefun n v)).
   Proof.
-    intros HI Hs G. pose proof HI as (HC & HV & HF). pose proof HF as [h1 h2 h3 h4 h5 h6].
-    cbn in Hs. cbn [guard_step] in G. cbn [step sstep]. unfold defun.
+    intros HI Hs G. pose proof HI as (HC & HV & HF). pose proof HF as [h1 h2 h3 h4 h5 h6 h7 h8].
+    cbn in Hs. cbn [guard_step] in G. cbn [step sstep]. unfold defun. cbv zeta.
     rewrite (c_cur _ _ HC), (h3 _ _). change (res (own_f s) (fexp_of (s_fheap s)) (s_uses s)) with (resolve_f s).
-    destruct (resolve_f s (s_cur s) n) as [a|] eqn:Er.
-    - apply opt_addr_eqb_eq in G. destruct (h4 _ _ _ G) as (Hlt & _ & fi & Hh & Hpk).
-      rewrite h1, Hh.
+    set (c := s_cur s) in *. set (l := lnext m).
+    set (lh := match plam m c n with Some x => upd (upd (lheap m) l (Some v)) x (Some v) | None => upd (lheap m) l (Some v) end).
+    set (pl := match plam m c n with Some _ => plam m | None => upd2 (plam m) c n (Some l) end).
+    assert (Hl_lh : lh l = Some v).
+    { unfold lh. destruct (plam m c n) as [x|] eqn:Ex; [|apply upd_same].
+      rewrite upd_other; [apply upd_same|]. intros E. apply h8 in Ex. fold l in Ex. rewrite E in Ex. exact (N.lt_irrefl _ Ex). }
+    assert (Hlh_other : forall y, y <> l -> (forall x, plam m c n = Some x -> y <> x) -> lh y = lheap m y).
+    { intros y Hy Hx. unfold lh. destruct (plam m c n) as [x|] eqn:Ex.
+      - rewrite upd_other by (apply Hx; reflexivity). apply upd_other, Hy.
+      - apply upd_other, Hy. }
+    assert (Hpl_l : forall p' n', pl p' n' = Some l -> p' = c /\ n' = n).
+    { intros p' n'. unfold pl. destruct (plam m c n) as [x|] eqn:Ex.
+      - intros E. apply h8 in E. exfalso. exact (N.lt_irrefl _ E).
+      - destruct (upd2_cases (plam m) c n (Some l) p' n') as [(-> & -> & _)|[_ ->]]; [auto|].
+        intros E. apply h8 in E. exfalso. exact (N.lt_irrefl _ E). }
+    assert (Hpl_other : forall p' n' y, y <> l -> pl p' n' = Some y -> plam m p' n' = Some y).
+    { intros p' n' y Hy. unfold pl. destruct (plam m c n) as [x|] eqn:Ex; [auto|].
+      destruct (upd2_cases (plam m) c n (Some l) p' n') as [(-> & -> & ->)|[_ ->]]; [congruence|auto]. }
+    assert (Hpl_lt : forall p' n' x, pl p' n' = Some x -> x < l + 1).
+    { intros p' n' x E. destruct (N.eq_dec x l) as [->|Hx]; [lia|]. apply Hpl_other in E; [|exact Hx]. apply h8 in E. fold l in E. lia. }
+    assert (Hlive : forall p' n' b, own_f s p' n' = Some b -> ~ (p' = c /\ n' = n) ->
+              exists fi sf, fheap m b = Some fi /\ s_fheap s b = Some sf /\ lh (fi_lam fi) = Some (sf_val sf) /\ fi_lam fi < l + 1 /\
+                            (forall p'' n'', pl p'' n'' = Some (fi_lam fi) -> p'' = p' /\ n'' = n')).
+    { intros p' n' b Hb Hne. destruct (h7 _ _ _ Hb) as (fi & sf & H1 & H2 & H3 & H4 & H5). exists fi, sf.
+      assert (Hy : fi_lam fi <> l) by (fold l in H4; lia).
+      split; [exact H1|split; [exact H2|split; [|split; [fold l in H4; lia|]]]].
+      - rewrite Hlh_other; [exact H3|exact Hy|]. intros x Ex E. apply Hne. destruct (H5 c n) as [-> ->]; [congruence|auto].
+      - intros p'' n'' E. apply H5. eapply Hpl_other; eassumption. }
+    destruct (resolve_f s c n) as [a|] eqn:Er.
+    - apply opt_addr_eqb_eq in G. destruct (h4 _ _ _ G) as (Hlt & _ & sf0 & Hh0 & Hpk).
+      destruct (h7 _ _ _ G) as (fi & sf & Hfi & Hsf & _). rewrite Hh0 in Hsf. injection Hsf as <-.
+      rewrite Hfi, Hh0.
+      destruct (fheap_of_s m s HF a sf0 Hh0) as (fi' & Hfi' & _ & Hex). rewrite Hfi in Hfi'. injection Hfi' as <-.
       assert (Hexp : forall x, fexp_of (s_fheap s) x =
-                fexp_of (upd (s_fheap s) a (Some {| fi_pkg := fi_pkg fi; fi_val := v; fi_export := fi_export fi |})) x).
-      { intros x. unfold fexp_of, upd. destruct (N.eqb_spec x a) as [->|]; [rewrite Hh|]; reflexivity. }
+                fexp_of (upd (s_fheap s) a (Some {| sf_pkg := sf_pkg sf0; sf_val := v; sf_export := sf_export sf0 |})) x).
+      { intros x. unfold fexp_of, upd. destruct (N.eqb_spec x a) as [->|]; [rewrite Hh0|]; reflexivity. }
       split; [|split]; [destruct HC; constructor; cbn; auto|exact HV|].
-      constructor; cbn; auto.
-      + intros x. rewrite Hpk. unfold upd. rewrite h1. reflexivity.
+      unfold RF. cbn. fold l. constructor; auto.
+      + intros x. unfold upd. destruct (N.eqb_spec x a) as [->|]; [|apply h1]. cbn. auto.
       + intros p' n'. rewrite <- (res_exp_ext _ _ _ _ _ _ Hexp). auto.
       + intros p' n' x Hx. destruct (h4 _ _ _ Hx) as (H1 & H2 & fi' & H3 & H4). split; [auto|split;[auto|]].
         unfold upd. destruct (N.eqb_spec x a) as [->|]; [|eauto]. eexists; split; [reflexivity|]. cbn. congruence.
       + eapply vis_exp_ext; [exact Hexp|exact h6].
+      + intros p' n' b Hb. destruct (N.eq_dec b a) as [->|Hba].
+        * destruct (h5 _ _ _ _ _ Hb G) as [-> ->]. rewrite !upd_same. eexists; eexists.
+          split; [reflexivity|split; [reflexivity|]]. cbn. split; [exact Hl_lh|split; [lia|exact Hpl_l]].
+        * rewrite !upd_other by exact Hba. apply Hlive; [exact Hb|]. intros [-> ->]. congruence.
     - apply opt_addr_eqb_eq in G. rewrite (v_weak _ _ _ _ _ _ _ HV _ _ G). cbn iota.
-      assert (Hnone : own_f s (s_cur s) n = None) by (apply res_none_inv in Er; tauto).
+      assert (Hnone : own_f s c n = None) by (apply res_none_inv in Er; tauto).
       assert (Hfresh : forall p' n', own_f s p' n' <> Some (s_fnext s)).
       { intros p' n' H. apply h4 in H. destruct H as [H _]. exact (N.lt_irrefl _ H). }
-      set (cell := {| fi_pkg := s_cur s; fi_val := v; fi_export := false |}).
-      set (own' := upd2 (own_f s) (s_cur s) n (Some (s_fnext s))).
+      set (cell := {| sf_pkg := c; sf_val := v; sf_export := false |}).
+      set (own' := upd2 (own_f s) c n (Some (s_fnext s))).
       set (sh' := upd (s_fheap s) (s_fnext s) (Some cell)).
-      assert (Hown0 : own' (s_cur s) n = Some (s_fnext s)) by apply upd2_same.
-      assert (Hown1 : forall p' n', ~ (p' = s_cur s /\ n' = n) -> own' p' n' = own_f s p' n') by (intros; apply upd2_other; assumption).
+      assert (Hown0 : own' c n = Some (s_fnext s)) by apply upd2_same.
+      assert (Hown1 : forall p' n', ~ (p' = c /\ n' = n) -> own' p' n' = own_f s p' n') by (intros; apply upd2_other; assumption).
       assert (Hexp : forall x, x <> s_fnext s -> fexp_of sh' x = fexp_of (s_fheap s) x).
       { intros x Hx. unfold fexp_of, sh'. rewrite upd_other by exact Hx. reflexivity. }
       assert (Hexp0 : fexp_of sh' (s_fnext s) = false) by (unfold fexp_of, sh'; rewrite upd_same; reflexivity).
       split; [|split]; [destruct HC; constructor; cbn; auto|exact HV|].
-      constructor; cbn; fold cell; fold own'; fold sh'.
-      + intros x. unfold sh', upd. rewrite h1, h2. reflexivity.
+      unfold RF. cbn. fold l. fold cell; fold own'; fold sh'. constructor.
+      + intros x. rewrite h2. unfold sh', upd. destruct (N.eqb_spec x (s_fnext s)) as [->|]; [|apply h1]. cbn. auto.
       + rewrite h2. reflexivity.
-      + intros p' n'. rewrite h2. destruct (upd2_cases (funcs m) (s_cur s) n (Some (s_fnext s)) p' n') as [(-> & -> & ->)|[Hne ->]].
+      + intros p' n'. rewrite h2. destruct (upd2_cases (funcs m) c n (Some (s_fnext s)) p' n') as [(-> & -> & ->)|[Hne ->]].
         * symmetry. apply res_own, Hown0.
         * rewrite (res_new_private (own_f s) own' (fexp_of (s_fheap s)) _ _ _ _ _ Hfresh Hnone Hown0 Hown1 Hexp _ _ Hexp0 Hne). auto.
-      + intros p' n' x Hx. destruct (upd2_cases (own_f s) (s_cur s) n (Some (s_fnext s)) p' n') as [(-> & -> & E)|[Hne E]];
+      + intros p' n' x Hx. destruct (upd2_cases (own_f s) c n (Some (s_fnext s)) p' n') as [(-> & -> & E)|[Hne E]];
           unfold own' in Hx; rewrite E in Hx.
         * injection Hx as <-. split; [lia|split; [exact Hs|]]. unfold sh'. rewrite upd_same. eexists; split; reflexivity.
         * destruct (h4 _ _ _ Hx) as (H1 & H2 & fi' & H3 & H4). split; [lia|split; [exact H2|]].
           unfold sh'. rewrite upd_other; [eauto|]. intros ->. exact (Hfresh _ _ Hx).
       + eapply inj_new; eauto.
       + eapply vis_new_private; eauto.
+      + intros p' n' b Hb. destruct (upd2_cases (own_f s) c n (Some (s_fnext s)) p' n') as [(-> & -> & E)|[Hne E]];
+          unfold own' in Hb; rewrite E in Hb.
+        * injection Hb as <-. rewrite h2. unfold sh'. rewrite !upd_same. eexists; eexists.
+          split; [reflexivity|split; [reflexivity|]]. cbn. split; [exact Hl_lh|split; [lia|exact Hpl_l]].
+        * assert (Hbn : b <> s_fnext s) by (intros ->; exact (Hfresh _ _ Hb)).
+          rewrite h2. unfold sh'. rewrite !upd_other by exact Hbn. apply Hlive; assumption.
+      + exact Hpl_lt.
   Qed.
 
   Lemma step_fmakunbound m s n :
     Inv m s -> sorted_op VN FN (OFmakunbound n) = true -> guard_step P NMl s (OFmakunbound n) = true ->
     Inv (step m (OFmakunbound n)) (sstep s (OFmakunbound n)).
   Proof.
-    intros HI Hs G. pose proof HI as (HC & HV & HF). pose proof HF as [h1 h2 h3 h4 h5 h6].
+    intros HI Hs G. pose proof HI as (HC & HV & HF). pose proof HF as [h1 h2 h3 h4 h5 h6 h7 h8].
     cbn in Hs. cbn [guard_step] in G. cbn [step sstep]. unfold undefine. rewrite (c_cur _ _ HC).
     split; [|split]; [destruct HC; constructor; cbn; auto|exact HV|].
     destruct (resolve_f s (s_cur s) n) as [a|] eqn:Er.
@@ -467,6 +532,8 @@ Section Refine.
           unfold own' in Hx; rewrite E in Hx; [discriminate|auto].
       + eapply inj_rm; eauto.
       + eapply vis_rm; eauto.
+      + intros p' n' x Hx. destruct (upd2_cases (own_f s) (s_cur s) n None p' n') as [(-> & -> & E)|[Hne E]];
+          unfold own' in Hx; rewrite E in Hx; [discriminate|auto].
     - assert (Hnone : own_f s (s_cur s) n = None) by (apply res_none_inv in Er; tauto).
       unfold RF. cbn. eapply RFp_own_ext; [apply upd2_none_noop, Hnone|].
       constructor; auto. intros p' n'. destruct (upd2_cases (funcs m) (s_cur s) n None p' n') as [(-> & -> & ->)|[Hne ->]]; [|auto].
@@ -540,7 +607,7 @@ Section Refine.
     match funcs m p n with
     | Some a => match fheap m a with
                 | Some fi =>
-                    let s' := set_fheap m (upd (fheap m) a (Some {| fi_pkg := fi_pkg fi; fi_val := fi_val fi; fi_export := true |})) in
+                    let s' := set_fheap m (upd (fheap m) a (Some {| fi_pkg := fi_pkg fi; fi_lam := fi_lam fi; fi_export := true |})) in
                     set_funcs s' (push_users (funcs s') (users m p) n a)
                 | None => m end
     | None => m end.
@@ -555,7 +622,8 @@ Section Refine.
         let a := vnext s1 in
         {| vars := upd2 (vars s1) obj n (Some a); funcs := funcs s1;
            vheap := upd (vheap s1) a (Some {| vv_pkg := None; vv_val := None; vv_export := true |});
-           fheap := fheap s1; vnext := a + 1; fnext := fnext s1; uses := uses s1; users := users s1; cur := cur s1 |}
+           fheap := fheap s1; vnext := a + 1; fnext := fnext s1; uses := uses s1; users := users s1; cur := cur s1;
+           lheap := lheap s1; lnext := lnext s1; plam := plam s1 |}
     end.
   Lemma export_split m p n : export m p n = export_v (export_f m p n) (users m p) p n.
   Proof. reflexivity. Qed.
@@ -585,12 +653,12 @@ Section Refine.
     | None => true end = true ->
     Inv (export_f m p n) (sexport_f s p n).
   Proof.
-    intros HI Hnone G. pose proof HI as (HC & HV & HF). pose proof HF as [h1 h2 h3 h4 h5 h6].
+    intros HI Hnone G. pose proof HI as (HC & HV & HF). pose proof HF as [h1 h2 h3 h4 h5 h6 h7 h8].
     unfold export_f, sexport_f. rewrite h3. change (res (own_f s) (fexp_of (s_fheap s)) (s_uses s)) with (resolve_f s).
     destruct (own_f s p n) as [a0|] eqn:Eo; [|rewrite (Hnone eq_refl); exact HI].
     rewrite (resolve_f_own _ _ _ _ Eo). destruct (h4 _ _ _ Eo) as (Hlt & Hfn & fi & Hh & Hpk).
-    rewrite h1, Hh. unfold set_fexp. rewrite Hh.
-    set (fi' := {| fi_pkg := fi_pkg fi; fi_val := fi_val fi; fi_export := true |}).
+    destruct (fheap_of_s m s HF a0 fi Hh) as (fim & Hm & Hmp & Hme). rewrite Hm. unfold set_fexp. rewrite Hh.
+    set (fi' := {| sf_pkg := sf_pkg fi; sf_val := sf_val fi; sf_export := true |}).
     set (sh' := upd (s_fheap s) a0 (Some fi')).
     assert (Hexp : forall x, x <> a0 -> fexp_of sh' x = fexp_of (s_fheap s) x).
     { intros x Hx. unfold fexp_of, sh'. rewrite upd_other by exact Hx. reflexivity. }
@@ -598,7 +666,7 @@ Section Refine.
     pose proof (users_clause (own_f s) (fexp_of (s_fheap s)) (s_uses s) _ p n a0 (fun u => in_s_users m s HC u p) G) as Gu.
     split; [|split]; [destruct HC; constructor; cbn; auto|exact HV|].
     unfold RF. cbn. fold fi'. fold sh'. constructor; auto.
-    - intros x. unfold sh', upd. rewrite h1. reflexivity.
+    - intros x. unfold sh', upd. destruct (N.eqb_spec x a0) as [->|]; [cbn; auto|apply h1].
     - intros p' n'. unfold push_users. destruct (mem p' (users m p)) eqn:Eu; cbn [andb].
       + apply (mem_users m s HC) in Eu. destruct (N.eqb_spec n' n) as [->|Hn].
         * rewrite (res_flag_on _ _ _ _ _ _ _ Eo h5 Hexp p' He Eu (Gu _ Eu)). rewrite h3.
@@ -609,6 +677,11 @@ Section Refine.
     - intros p' n' x Hx. destruct (h4 _ _ _ Hx) as (H1 & H2 & fi0 & H3 & H4). split; [auto|split; [auto|]].
       unfold sh', upd. destruct (N.eqb_spec x a0) as [->|]; [|eauto]. eexists; split; [reflexivity|]. cbn. congruence.
     - eapply vis_flag_on; eauto.
+    - intros p' n' b Hb. destruct (h7 _ _ _ Hb) as (fi0 & sf1 & H1 & H2 & H3 & H4 & H5).
+      destruct (N.eq_dec b a0) as [->|Hb0].
+      + unfold sh'. rewrite !upd_same. rewrite Hm in H1. injection H1 as <-. rewrite Hh in H2. injection H2 as <-.
+        eexists; eexists. split; [reflexivity|split; [reflexivity|]]. cbn. auto.
+      + unfold sh'. rewrite !upd_other by exact Hb0. eauto 10.
   Qed.
 
   Lemma export_v_vn m s us p n a0 :
@@ -720,7 +793,7 @@ Section Refine.
     match funcs s obj n with
     | Some a => match fheap s a with
                 | Some fi =>
-                    let s' := set_fheap s (upd (fheap s) a (Some {| fi_pkg := fi_pkg fi; fi_val := fi_val fi; fi_export := false |})) in
+                    let s' := set_fheap s (upd (fheap s) a (Some {| fi_pkg := fi_pkg fi; fi_lam := fi_lam fi; fi_export := false |})) in
                     set_funcs s' (fun p n' =>
                       if mem p (users s obj) && N.eqb n' n then
                         match funcs s' p n with
@@ -760,23 +833,23 @@ Section Refine.
 
   Lemma resf_cell m s p n a :
     RF m s -> resolve_f s p n = Some a ->
-    exists q fi, own_f s q n = Some a /\ s_fheap s a = Some fi /\ fi_pkg fi = q.
+    exists q fi, own_f s q n = Some a /\ s_fheap s a = Some fi /\ sf_pkg fi = q.
   Proof.
     intros HF Hr. assert (exists q, own_f s q n = Some a) as [q Hq].
     { apply res_some_inv in Hr. destruct Hr as [Hr|(_ & q & _ & Hf)]; [eauto|]. apply eff_some in Hf. destruct Hf; eauto. }
-    destruct (f_own _ _ _ _ _ _ _ HF _ _ _ Hq) as (_ & _ & fi & H1 & H2). eauto 8.
+    destruct (f_own _ _ _ _ _ _ _ _ _ _ HF _ _ _ Hq) as (_ & _ & fi & H1 & H2). eauto 8.
   Qed.
 
   Lemma unexport_f_inv m s p n :
     Inv m s -> (own_f s p n = None -> resolve_f s p n = None) ->
     Inv (unexport_f m p n) (sunexport_f s p n).
   Proof.
-    intros HI Hnone. pose proof HI as (HC & HV & HF). pose proof HF as [h1 h2 h3 h4 h5 h6].
+    intros HI Hnone. pose proof HI as (HC & HV & HF). pose proof HF as [h1 h2 h3 h4 h5 h6 h7 h8].
     unfold unexport_f, sunexport_f. rewrite h3. change (res (own_f s) (fexp_of (s_fheap s)) (s_uses s)) with (resolve_f s).
     destruct (own_f s p n) as [a0|] eqn:Eo; [|rewrite (Hnone eq_refl); exact HI].
     rewrite (resolve_f_own _ _ _ _ Eo). destruct (h4 _ _ _ Eo) as (Hlt & Hfn & fi & Hh & Hpk).
-    rewrite h1, Hh. unfold set_fexp. rewrite Hh.
-    set (fi' := {| fi_pkg := fi_pkg fi; fi_val := fi_val fi; fi_export := false |}).
+    destruct (fheap_of_s m s HF a0 fi Hh) as (fim & Hm & Hmp & Hme). rewrite Hm. unfold set_fexp. rewrite Hh.
+    set (fi' := {| sf_pkg := sf_pkg fi; sf_val := sf_val fi; sf_export := false |}).
     set (sh' := upd (s_fheap s) a0 (Some fi')).
     assert (Hexp : forall x, x <> a0 -> fexp_of sh' x = fexp_of (s_fheap s) x).
     { intros x Hx. unfold fexp_of, sh'. rewrite upd_other by exact Hx. reflexivity. }
@@ -784,16 +857,16 @@ Section Refine.
     assert (Hgood : (fun _ : name => true) n = true) by reflexivity.
     split; [|split]; [destruct HC; constructor; cbn; auto|exact HV|].
     unfold RF. cbn. fold fi'. fold sh'. constructor; auto.
-    - intros x. unfold sh', upd. rewrite h1. reflexivity.
+    - intros x. unfold sh', upd. destruct (N.eqb_spec x a0) as [->|]; [cbn; auto|apply h1].
     - intros p' n'. destruct (mem p' (users m p)) eqn:Eu; cbn [andb].
       + apply (mem_users m s HC) in Eu. assert (Hp : p' <> p) by (apply (c_wf _ _ HC _ _ Eu)).
         destruct (N.eqb_spec n' n) as [->|Hn].
         * rewrite h3. destruct (res (own_f s) (fexp_of (s_fheap s)) (s_uses s) p' n) as [x|] eqn:Ex.
           -- destruct (resf_cell m s p' n x HF Ex) as (q' & fx & Hox & Hhx & Hpx).
              destruct (N.eq_dec x a0) as [->|Hxa].
-             ++ rewrite upd_same. cbn. rewrite Hpk, N.eqb_refl. symmetry.
+             ++ rewrite upd_same. cbn. rewrite Hmp, Hpk, N.eqb_refl. symmetry.
                 eapply res_flag_off_a0 with (good := fun _ => true) (p0 := p); eauto.
-             ++ rewrite upd_other by exact Hxa. rewrite h1, Hhx, Hpx.
+             ++ rewrite upd_other by exact Hxa. destruct (fheap_of_s m s HF x fx Hhx) as (fxm & Hxm & Hxp & _). rewrite Hxm, Hxp, Hpx.
                 destruct (N.eqb_spec q' p) as [->|Hq']; [congruence|]. symmetry.
                 eapply res_flag_off_other with (good := fun _ => true) (p0 := p) (a0 := a0); eauto.
           -- symmetry. eapply res_flag_off_none; eauto.
@@ -803,6 +876,11 @@ Section Refine.
     - intros p' n' x Hx. destruct (h4 _ _ _ Hx) as (H1 & H2 & fi0 & H3 & H4). split; [auto|split; [auto|]].
       unfold sh', upd. destruct (N.eqb_spec x a0) as [->|]; [|eauto]. eexists; split; [reflexivity|]. cbn. congruence.
     - eapply vis_flag_off; eauto.
+    - intros p' n' b Hb. destruct (h7 _ _ _ Hb) as (fi0 & sf1 & H1 & H2 & H3 & H4 & H5).
+      destruct (N.eq_dec b a0) as [->|Hb0].
+      + unfold sh'. rewrite !upd_same. rewrite Hm in H1. injection H1 as <-. rewrite Hh in H2. injection H2 as <-.
+        eexists; eexists. split; [reflexivity|split; [reflexivity|]]. cbn. auto.
+      + unfold sh'. rewrite !upd_other by exact Hb0. eauto 10.
   Qed.
 
   Lemma unexport_v_inv m s us p n :
@@ -907,9 +985,13 @@ Section Refine.
   Qed.
   Lemma q_fun_eq m s c p n b : Inv m s -> q_fun m c p n b = sq_fun s c p n b.
   Proof.
-    intros (HC & HV & HF). unfold q_fun, sq_fun. rewrite (f_tab _ _ _ _ _ _ _ HF).
+    intros (HC & HV & HF). unfold q_fun, sq_fun. rewrite (f_tab _ _ _ _ _ _ _ _ _ _ HF).
     change (res (own_f s) (fexp_of (s_fheap s)) (s_uses s)) with (resolve_f s).
-    destruct (resolve_f s p n) as [a|]; [|reflexivity]. rewrite (f_heap _ _ _ _ _ _ _ HF). reflexivity.
+    destruct (resolve_f s p n) as [a|] eqn:Er; [|reflexivity].
+    destruct (resf_cell m s p n a HF Er) as (q & sf0 & Ho & _ & _).
+    destruct (f_live _ _ _ _ _ _ _ _ _ _ HF _ _ _ Ho) as (fi & sf & Hm & Hs & Hl & _).
+    destruct (fheap_of_s m s HF a sf Hs) as (fi' & Hm' & Hp & He). rewrite Hm in Hm'. injection Hm' as <-.
+    rewrite Hm, Hs, Hp, He, Hl. reflexivity.
   Qed.
 
   Lemma flat_map_ext_in {A B} (f g : A -> list B) l : (forall x, In x l -> f x = g x) -> flat_map f l = flat_map g l.
@@ -992,9 +1074,9 @@ Lemma tables_are_the_graph P VN FN : disjoint_names VN FN = true ->
   let m := fold_left step ops (init p0) in let s := fold_left sstep ops (sinit p0) in
   (forall p n, mem n VN = true -> vars m p n = resolve_v s p n) /\
   (forall p n, funcs m p n = resolve_f s p n) /\
-  (forall a, vheap m a = s_vheap s a) /\ (forall a, fheap m a = s_fheap s a).
+  (forall a, vheap m a = s_vheap s a) /\ (forall a, frel (fheap m a) (s_fheap s a)).
 Proof.
   intros H p0 ops Hs G m s.
   destruct (refinement_state P VN FN H ops _ _ (inv_init P VN FN p0) Hs G) as (_ & HV & HF).
-  destruct HV as [h1 _ h3 _ _ _ _ _ _]. destruct HF as [g1 _ g3 _ _ _]. repeat split; assumption.
+  destruct HV as [h1 _ h3 _ _ _ _ _ _]. destruct HF as [g1 _ g3 _ _ _ _ _]. repeat split; assumption.
 Qed.
